@@ -22,6 +22,7 @@ mod c14;
 mod c15;
 mod c16;
 mod c17;
+mod c19;
 mod fixture;
 mod core;
 mod evalcommon;
@@ -55,7 +56,15 @@ fn main() {
     let args: Vec<String> = std::env::args().collect();
     let cmd = args.get(1).map(|s| s.as_str()).unwrap_or("");
     match cmd {
+        "stackprobe" => {
+            let depth: usize = args[4].parse().expect("depth");
+            std::process::exit(c19::probe(&args[2], &args[3], depth, &args[5]));
+        }
         "run" => {
+            let tier0 = std::env::var("VERIF_TIER").ok().and_then(|t| Tier::parse(&t)).or_else(|| args.get(3).and_then(|t| Tier::parse(t))).unwrap_or(Tier::Quick);
+            if args[2] == "C19" {
+                std::process::exit(c19::drive(tier0));
+            }
             let p = find(&args[2]);
             let tier = std::env::var("VERIF_TIER").ok().and_then(|t| Tier::parse(&t)).or_else(|| args.get(3).and_then(|t| Tier::parse(t))).unwrap_or(Tier::Quick);
             std::process::exit(core::drive(&p, tier));
